@@ -424,6 +424,22 @@ theorem isimip_removed_trend_zero (cfg : Model.Isimip.Cfg) (o : Model.Isimip.Ora
 
 example : tasCfg.detrending = true ∧ tasCfg.detrendingWithSignificanceTest = true := ⟨rfl, rfl⟩
 
+/-- **A linear within-period trend of the annual means passes through ISIMIP unchanged**: adding
+    `b · (year − mean(unique years))` to `cm_future` (detrending on; the regression significant in both runs — the
+    oracle `sigF`; at least two different years) adds exactly that signal to the output of `_apply_on_window`:
+    step 3 removes the larger trend (`trendSlope` gains `b`: `Lemmas.C02.trendSlope_add_linear`), steps 4–6 see
+    identical inputs, step 7 restores the larger trend.  Any configuration of steps 4–6, any family. -/
+theorem isimip_linear_trend_passes (cfg : Model.Isimip.Cfg) (hd : cfg.detrending = true)
+    (hsig : cfg.detrendingWithSignificanceTest = true) (fam : Model.Isimip.IsiFamily) (o : Model.Isimip.Oracles)
+    (hF : o.sigF = true) (d : Model.Isimip.Draws) (b : Rat) (obs H F : List Rat) (yO yH yF : List Int)
+    (hlen : F.length = yF.length) (h2 : ∃ y1 ∈ yF, ∃ y2 ∈ yF, y1 ≠ y2) :
+    Model.Isimip.applyOnWindow cfg fam o d obs H (List.zipWith (· + ·) F (linearSignal b yF)) yO yH yF =
+      (Model.Isimip.applyOnWindow cfg fam o d obs H F yO yH yF).map (fun r => List.zipWith (· + ·) r (linearSignal b yF)) :=
+  applyOnWindow_add_linear cfg hd hsig fam o hF d b obs H F yO yH yF hlen (yearsSS_ne_zero yF h2)
+
+example : ∃ y1 ∈ ([2030, 2030, 2031, 2031] : List Int), ∃ y2 ∈ ([2030, 2030, 2031, 2031] : List Int), y1 ≠ y2 :=
+  ⟨2030, by simp, 2031, by simp, by decide⟩
+
 /-- … and `cm_future` itself is recovered from its detrended part (`Lemmas.IsimipModel.step7_step3_roundtrip`) -/
 theorem isimip_step7_step3_roundtrip (cfg : Model.Isimip.Cfg) (o : Model.Isimip.Oracles) (obs H F : List Rat)
     (yO yH yF : List Int) (h : F.length = yF.length) :
